@@ -174,6 +174,8 @@ def replay(pid, path):
     cmd = r["history_cmd"].split()[1:]
     if cmd[0] == "gen":
         cmd = ["gen", cmd[1], str(r["run"]), str(r["run"] + 1)]
+    elif cmd[0] == "shift":
+        cmd = ["shift", cmd[1], str(r["run"]), str(r["run"] + 1)]
     elif cmd[0] == "sync":
         cmd = ["sync", cmd[1], cmd[2], str(r["run"]), str(r["run"] + 1)]
     p = sh([h["bin"]] + cmd, check=False, timeout=600)
